@@ -1,5 +1,7 @@
 """Per-property texts of MANIFEST.json."""
-_T = 'CBMC function contracts (DFCC) on the mechanically lowered real functions'
+_T = ('CBMC function contracts (goto-instrument --dfcc enforce/replace, loop contracts) on the mechanically lowered real functions; '
+      'where the instrumentation does not scale: CBMC symbolic execution of the real function against contract stubs (complete when loop-free, '
+      'otherwise labelled bounded and not counted)')
 _NOTE = ('Trusted: clang AST, the AST-to-C lowering (differentially tested on every setup), the C model of the std:: surface, '
          'CBMC. Assumed: pow(256,i) exact for i<=3, little-endian LP64, no bad_alloc. Obligations of bounded units are reported '
          'separately and never counted as proved.')
@@ -34,4 +36,4 @@ LEVEL_TEXT = {
 NOT_APPLICABLE = {}
 
 NOTES = ('All checks are run by /verif/vf.py against the working tree of /repo: clang AST dump -> lowering to C -> goto-cc -> '
-         'goto-instrument contract instrumentation -> cbmc. Exit 2 = undecided (never reported as a violation).')
+         'goto-instrument contract instrumentation (or --replace-calls with contract stubs) -> cbmc. Exit 2 = undecided (never reported as a violation).')
